@@ -18,6 +18,7 @@ type vecParams_ struct {
 	Ops          []Op                     `json:"ops"`
 	Queries      [][]models.SearchRequest `json:"queries"` // asked after op i
 	ColdEvery    int                      `json:"cold_every"`
+	InsertOnly   bool                     `json:"insert_only,omitempty"`
 }
 
 type c04 struct{}
